@@ -456,11 +456,15 @@ class C18:
                         where = "op %d (%s %s) with fault %s#%d" % (ci, op[0], path_str(op[1]), kind, k)
                         etype = FAULT_NAMES[(k + ci + len(kind)) % len(FAULT_NAMES)]
                         count("fault_type:" + etype)
-                        fst = sub.step(op, fault={"kind": kind, "n": k, "fired": False, "tag": k, "exc": etype})
+                        noargs = (k * 3 + ci) % 4 == 1
+                        if noargs:
+                            count("fault_without_arguments")
+                        fst = sub.step(op, fault={"kind": kind, "n": k, "fired": False, "tag": k, "exc": etype, "noargs": noargs})
                         nfaults += 1
                         count("events", len(fst.trace) if fst is not None else 0)
                         count("fault:%s_raises" % {"w": "write", "r": "read", "act": "action"}[kind])
-                        C18._check_faulted(sub, fst, W, pos[k], kind, before, strict, where, has_knob)
+                        defs_ok = (before["defs"], O.definitions(ref.world.mgr))
+                        C18._check_faulted(sub, fst, W, pos[k], kind, before, strict, where, has_knob, defs_ok)
                         # optionally a second faulty attempt in a row
                         if case.get("double") and len(ks) > 1:
                             k2 = ks[(ks.index(k) * 7 + 3) % len(ks)]
@@ -472,7 +476,7 @@ class C18:
                             fst2.op, fst2.info, fst2.trace, fst2.exc = op, fst.info, tr, exc
                             mid = O.snapshot(sub.world) if strict else None
                             C18._check_faulted(sub, fst2, W, pos[k2], kind, before if strict else None, strict,
-                                               where + " then #%d" % k2, has_knob)
+                                               where + " then #%d" % k2, has_knob, defs_ok)
                         # ---- fault-free repeat ---------------------------------------------------
                         tr, exc = run_traced(lambda: sub.world.apply(op))
                         if exc is not None:
@@ -501,7 +505,7 @@ class C18:
         return [(ev[0], world.sidpath.get(ev[1], ev[1]), ev[2]) for ev in trace]
 
     @staticmethod
-    def _check_faulted(sub, fst, W, j, kind, before, strict, where, has_knob):
+    def _check_faulted(sub, fst, W, j, kind, before, strict, where, has_knob, defs_ok=None):
         prop = "C18"
         if fst is None:
             raise Violation(prop + ".harness", "%s: model rejected the op on replay" % where)
@@ -526,6 +530,14 @@ class C18:
         d = O.diff_support(O.support(mgr), O.support_from_tasks(mgr.tasks.values()))
         if d:
             raise Violation(prop + ".index", "%s: indices inconsistent with the registered tasks after the failed update: %s" % (where, d))
+        if defs_ok is not None:
+            # a failed update may or may not have installed the new definition, but nothing else: the definitions are
+            # those from before the call or those a fault-free call leaves
+            dd = O.definitions(mgr)
+            if dd != defs_ok[0] and dd != defs_ok[1]:
+                s0, s1, sd = set(defs_ok[0]), set(defs_ok[1]), set(dd)
+                raise Violation(prop + ".definitions", "%s: after the failed update the definitions are neither the old nor the new ones: "
+                                "lost %s, unexpected %s" % (where, sorted((s0 & s1) - sd)[:2] or sorted(s1 - sd)[:2], sorted(sd - s0 - s1)[:2]))
         if strict and before is not None:
             after = O.snapshot(sub.world)
             a = dict(after)
@@ -612,6 +624,9 @@ class C17:
             if ra.random() < 0.5:
                 # registering a task object directly (here: one that is registered already) is a replacement too
                 out.append(("rereg", ra.randrange(64)))
+            if ra.random() < 0.5:
+                # an expression that cannot even be evaluated right now (it reads a key that does not exist): still a ValueError
+                out.append(("failsete", ra.randrange(1000), ra.randrange(1000), ra.random() < 0.5, ra.choice(["item", "mgr"])))
             # re-assigning the value a location already holds is still an assignment: its dependants are run again
             plain = [l for l in free if l not in hg.model.defs]
             if plain:
@@ -680,6 +695,15 @@ class C17:
                         if not tids:
                             continue
                         cls, special = "mutator", (lambda t=mgr.tasks[tids[a[1] % len(tids)]]: mgr.register(t))
+                    elif a[0] == "failsete":
+                        free = [l for l in spec.leaves if l not in ex.model.ft_target and l not in ex.model.kn_target]
+                        if not free:
+                            continue
+                        tgt = free[a[1] % len(free)]
+                        other = spec.leaves[a[2] % len(spec.leaves)]
+                        missing = (tgt[0], (step_kind(spec.root_mode[tgt[0]][1]), "nokey%s" % cfg["salt"]))
+                        bad = ("bin", "+", ("ref", other), ("ref", missing)) if a[3] else ("bin", "*", ("ref", missing), ("ref", other))
+                        cls, special = "mutator", (lambda tgt=tgt, bad=bad, st=a[4]: w._assign(tgt, w.build(bad), st))
                     elif a[0] == "copybind":
                         src = World(spec, xd, cfg["salt"])
                         for p_, a_ in a[1]:
@@ -1419,6 +1443,12 @@ class C13:
                                 raise Violation(prop + ".exception_differs", "%s: the generated function %s, assigning through the manager %s"
                                                 % (where, "raised %s: %s" % (type(e1).__name__, e1) if e1 is not None else "returned normally",
                                                    "raised %s: %s" % (type(e2).__name__, e2) if e2 is not None else "returned normally"))
+                            # with or without an exception the argument itself was assigned (in both executions that is the
+                            # first thing that happens; which of the tasks ran before the failure is not compared)
+                            a1, a2 = S.contents()[args[0]], T.contents()[args[0]]
+                            if not same(plain(a1), vals[0]) or not same(plain(a2), vals[0]):
+                                raise Violation(prop + ".argument_lost", "%s: afterwards the location holds %r (generated function) / %r (manager), "
+                                                "the argument was %r" % (where, a1, a2, vals[0]))
                             if e1 is None:
                                 c1, c2 = S.contents(), T.contents()
                                 for loc in spec.leaves:
